@@ -143,3 +143,92 @@ def reset_global_rngs(seed=0):
     np.random.seed(seed)
     random.seed(seed)
     torch.manual_seed(seed)
+
+
+class ImmutabilityGuard:
+    """Oracle 'a public numqi function does not modify the arrays it is given', installed from outside the package.
+
+    Every plain function defined in the selected numqi modules is replaced (in every numqi module namespace where the same
+    function object is bound) by a wrapper that, for calls coming from the harness (call depth 0), snapshots ndarray / tensor
+    arguments and compares them after the call. Library-internal calls (depth > 0) are passed through unchecked: internal
+    helpers may use scratch buffers by design. Violations are collected in self.events and drained by the engine per case."""
+
+    def __init__(self, prefixes, exclude=()):
+        self.prefixes = tuple(prefixes)
+        self.exclude = set(exclude)
+        self.depth = 0
+        self.events = []
+        self.installed = 0
+
+    @staticmethod
+    def _snap(x):
+        if isinstance(x, np.ndarray):
+            return x.copy()
+        if hasattr(x, 'detach') and hasattr(x, 'clone') and hasattr(x, 'shape'):
+            return x.detach().clone()
+        return None
+
+    @staticmethod
+    def _changed(x, b):
+        try:
+            if tuple(x.shape) != tuple(b.shape):
+                return True
+            if isinstance(x, np.ndarray):
+                if x.dtype != b.dtype:
+                    return True
+                return x.tobytes() != b.tobytes() if x.dtype.kind != 'O' else False
+            import torch
+            return not bool(torch.equal(x.detach(), b)) and not bool(torch.isnan(b).any() if b.is_floating_point() or b.is_complex() else False)
+        except Exception:
+            return False
+
+    def _wrap(self, f, qual):
+        import functools
+        guard = self
+
+        @functools.wraps(f)
+        def wrapper(*a, **kw):
+            if guard.depth > 0:
+                return f(*a, **kw)
+            before = [(i, x, guard._snap(x)) for i, x in enumerate(a)] + [(k, x, guard._snap(x)) for k, x in kw.items()]
+            guard.depth += 1
+            try:
+                r = f(*a, **kw)
+            finally:
+                guard.depth -= 1
+            for i, x, b in before:
+                if b is not None and guard._changed(x, b):
+                    guard.events.append((qual, i))
+            return r
+        wrapper.__immutability_guard__ = True
+        return wrapper
+
+    def install(self):
+        import types
+        mods = [(n, m) for n, m in list(sys.modules.items()) if m is not None and (n == 'numqi' or n.startswith('numqi.'))]
+        wrappers = {}
+        for n, m in mods:
+            if not any(n == p or n.startswith(p + '.') or n.startswith(p) for p in self.prefixes):
+                continue
+            for k, v in list(vars(m).items()):
+                if isinstance(v, types.FunctionType) and (v.__module__ or '').startswith('numqi') and not k.startswith('_') \
+                        and not getattr(v, '__immutability_guard__', False):
+                    qual = '%s.%s' % (v.__module__, v.__name__)
+                    if qual in self.exclude or v.__name__.endswith('_'):
+                        continue
+                    if id(v) not in wrappers:
+                        wrappers[id(v)] = self._wrap(v, qual)
+        for n, m in mods:
+            for k, v in list(vars(m).items()):
+                w = wrappers.get(id(v))
+                if w is not None:
+                    try:
+                        setattr(m, k, w)
+                    except Exception:
+                        pass
+        self.installed = len(wrappers)
+        return self
+
+    def drain(self):
+        ev, self.events = self.events, []
+        return ev
